@@ -175,6 +175,8 @@ type Thread struct {
 	pcs     map[uint64]stackInfo
 	rootPtr unsafe.Pointer
 
+	notes []localNote // values of scalar locals noted at loop heads (NoteLocals)
+
 	// run-length cap on identical consecutive observations (see note)
 	digestBefore uint64
 	lastObs      uint64
@@ -597,6 +599,9 @@ func (t *Thread) prepark() {
 		t.rootHash = HashRoot(t.Root)
 	}
 	t.stack = si.hash
+	for len(t.notes) > 0 && t.notes[len(t.notes)-1].depth > si.depth {
+		t.notes = t.notes[:len(t.notes)-1] // the frame of that loop has returned
+	}
 	t.digestBefore = t.digest
 	t.ticked = false
 	if !w.Opt.KeyHistory {
@@ -614,6 +619,90 @@ func (t *Thread) prepark() {
 	} else {
 		t.digest = Mix(t.digest, si.hash)
 	}
+}
+
+// localNote: see NoteLocals.
+type localNote struct {
+	site  uint64
+	depth int
+	hash  uint64
+}
+
+var noteParent = map[uint64]uint64{} // loop site -> enclosing loop site of the same function (static program structure)
+
+// NoteLocals is called at the head of every loop body of the rewritten library
+// code (inserted by vxform) with the scalar locals of the enclosing function
+// that the loop reads or writes. The values are part of the thread's key while
+// the frame of the loop is live, so that state carried from one iteration to
+// the next in a local variable - which neither the object hash nor a digest
+// that is reset every round can see - keeps states apart. Finer keys only:
+// nothing is ever merged because of a note.
+//
+//go:norace
+func NoteLocals(site, parent uint64, vals ...any) {
+	w := W
+	if w == nil || w.Opt.KeyHistory {
+		return
+	}
+	t := w.cur
+	if t == nil || !t.Lib {
+		return
+	}
+	h := uint64(0x10ca15)
+	for _, v := range vals {
+		h = Mix(h, HashAny(v))
+	}
+	var pcs [48]uintptr
+	n := runtime.Callers(2, pcs[:])
+	ph := uint64(1469598103934665603)
+	for _, pc := range pcs[:n] {
+		ph = Mix(ph, uint64(pc))
+	}
+	cache := w.pcCache
+	if raceEnabled {
+		if t.pcs == nil {
+			t.pcs = map[uint64]stackInfo{}
+		}
+		cache = t.pcs
+	}
+	si, ok := cache[ph]
+	if !ok {
+		si = symbolize(pcs[:n])
+		cache[ph] = si
+	}
+	d := si.depth
+	if !raceEnabled {
+		if _, ok := noteParent[site]; !ok {
+			noteParent[site] = parent
+		}
+	}
+	// drop the notes of frames that have returned, and of loops of this frame
+	// that do not enclose this one (they have ended)
+	keep := t.notes[:0]
+	for _, nt := range t.notes {
+		switch {
+		case nt.depth < d:
+			keep = append(keep, nt)
+		case nt.depth == d && nt.site != site && encloses(nt.site, site, parent):
+			keep = append(keep, nt)
+		}
+	}
+	t.notes = append(keep, localNote{site, d, h})
+}
+
+//go:norace
+func encloses(outer, inner, innerParent uint64) bool {
+	p := innerParent
+	for i := 0; p != 0 && i < 16; i++ {
+		if p == outer {
+			return true
+		}
+		if raceEnabled {
+			return false // the shared table is not kept in race builds: one level only
+		}
+		p = noteParent[p]
+	}
+	return false
 }
 
 //go:norace
@@ -1303,6 +1392,9 @@ func (w *World) Key() uint64 {
 			t.rootHash = lastRootHash
 		}
 		k := Mix(t.KeyName, d, t.digest, t.stack, t.rootHash)
+		for i := range t.notes {
+			k = Mix(k, t.notes[i].site, t.notes[i].hash)
+		}
 		if p := t.pend; p != nil {
 			k = Mix(k, p.h)
 			if p.kind == OpSleep {
